@@ -114,6 +114,15 @@ def forward_body(cfg):
             extra = [k for k in nodes[i].__dict__ if k not in ("target", "_NodeMixin__parent", "_NodeMixin__children")]
             if extra:
                 return dict(info, why="attribute stored on the link itself", link=i, keys=extra)
+    # assigning an equal-but-not-identical object through a link replaces the stored object
+    for w in range(n):
+        ft = final_target(targets, w)
+        first = ["v", w]
+        setattr(nodes[ft], "lst", first)
+        second = ["v", w]
+        setattr(nodes[w], "lst", second)
+        if getattr(nodes[ft], "lst", None) is not second:
+            return dict(info, why="assignment of an equal but distinct object through node %d was dropped" % w)
     if real_map(nodes) != (parent, children):
         return dict(info, why="attribute traffic changed the structure")
     return True
